@@ -1,5 +1,6 @@
 import Ecal.Model.Path
 import Ecal.Lemmas.Path
+import Ecal.Gen.C17
 /-!
 # C17 — file imports cannot escape the configured root directory
 
@@ -161,6 +162,67 @@ theorem resolve_opens_clean (root p q : Str) (h : resolve root p = .opened q) :
     exact ⟨clean_idempotent _, clean_render_roundtrip _⟩
   · rw [h1] at h; exact absurd h (by simp)
   · rw [h1] at h; exact absurd h (by simp)
+
+/-! ## The import statement and the code that configures the locator -/
+
+/-- **import_ignores_source_name.** The outcome of an import statement — the module reached and every
+    file opened on the way, through any number of nested imports — is the same under every source
+    name of the importing program (a name with directories, starting with `..`, absolute, equal to
+    a file outside the root): only the configured root and the import path take part. -/
+theorem import_ignores_source_name (fs : FS) (root : Str) (fuel : Nat) (src src' p : Str) :
+    importEval fs root fuel src p = importEval fs root fuel src' p := by
+  cases fuel <;> rfl
+
+/-- **import_opens_only_inside.** Every string handed to `ReadFile` while an import statement is
+    evaluated — including those of nested imports, whatever the imported modules name — lies inside
+    the CONFIGURED root; in particular the result of `resolve` on the import path alone decides
+    the first file, and no other locator is ever consulted. -/
+theorem import_opens_only_inside (fs : FS) (root : Str) (fuel : Nat) (src p : Str) :
+    ∀ q ∈ (importEval fs root fuel src p).2, inside root q := by
+  induction fuel generalizing src p with
+  | zero => intro q hq; simp [importEval] at hq
+  | succ fuel ih =>
+    intro q hq
+    unfold importEval at hq
+    split at hq
+    · rename_i q0 hres
+      have hin := resolve_confined root p q0 hres
+      split at hq
+      · simp only [List.mem_singleton] at hq; subst hq; exact hin
+      · simp only [List.mem_singleton] at hq; subst hq; exact hin
+      · simp only [List.mem_cons] at hq
+        rcases hq with rfl | hq
+        · exact hin
+        · exact ih _ _ q hq
+    · simp at hq
+
+/-- non-vacuity: a module inside the root that imports `../nm` does not get the file next to the
+    root; one that imports `./nm` gets the root's `nm` whatever directory the module lies in. -/
+example :
+    let fs : FS := fun q =>
+      if q = b "root/sub/m" then some (.imports (b "../nm"))
+      else if q = b "root/sub/k" then some (.imports (b "./nm"))
+      else if q = b "root/nm" then some (.sentinel 0)
+      else if q = b "nm" then some (.sentinel 1)
+      else if q = b "root/sub/nm" then some (.sentinel 2) else none
+    importEval fs (b "root") 4 (b "../main.ecal") (b "sub/m") = (none, [b "root/sub/m"]) ∧
+    importEval fs (b "root") 4 (b "../main.ecal") (b "./sub/k") = (some 0, [b "root/sub/k", b "root/nm"]) := by
+  decide
+
+/-- **locator_roots_configured.** Regenerated on every run from the tree under test
+    (`harness C17 -tool extract`, go/ast, follows local definitions and same-package calls): no
+    `util.FileImportLocator` composite literal in cli, cli/tool, interpreter, util (outside tests)
+    takes its `Root` from a transformation whose error is discarded — such a root silently becomes
+    `""` (the process working directory) when the transformation fails, and every theorem above
+    would then speak about a root nobody configured. Three-valued: only a positively refuted root
+    breaks this; roots the extractor cannot follow are listed in `Gen.C17.notEstablished` and
+    amplify the tool / import cases of the same run. -/
+theorem locator_roots_configured : Ecal.Gen.C17.refuted = [] := by decide
+
+/-- the tool's locator root is the configured directory string itself (what the `T` cases tie to
+    `CLIInterpreter.CreateRuntimeProvider`): a missing or dangling directory stays the root, and
+    with it every import fails instead of falling back to another directory -/
+theorem tool_root_is_configured (dir : Str) : toolLocatorRoot dir = dir := rfl
 
 /-! ## What "inside" means in a directory tree -/
 
